@@ -19,6 +19,21 @@ def blob(rng):
     if r < 0.9:
         inp, base, ops = genlib.gen_scenario(rng)
         return inp
+    if r < 0.95:
+        # IDNA-structured: combining marks of different classes in non-canonical order at the very start of a label / of
+        # the whole domain, long runs of marks, ACE labels; bare or inside a URL
+        marks = [0x301, 0x323, 0x300, 0x316, 0x308, 0x327, 0x31B, 0x345, 0x5B0, 0x5B1, 0x94D, 0x3099, 0x20D0, 0x1DC0, 0xE01F0]
+        cps = [rng.choice(marks) for _ in range(rng.randrange(2, 7))] + \
+              [rng.choice([0x61, 0xE9, 0x2E, 0x644, 0x915] + marks) for _ in range(rng.randrange(0, 8))]
+        if rng.random() < 0.3:
+            cps = [rng.choice([0x61, 0x2E])] + cps
+        d = "".join(chr(c) for c in cps).encode("utf-8")
+        k = rng.random()
+        if k < 0.4:
+            return d
+        if k < 0.8:
+            return rng.choice([b"http://", b"sc://", b"https://u@"]) + d + rng.choice([b"", b"/", b":80/x"])
+        return b"xn--" + bytes(rng.choice(b"abcdefghijklmnopqrstuvwxyz0123456789-") for _ in range(rng.randrange(1, 12))) + rng.choice([b"", b".\xc3\xa9"])
     # malformed UTF-8 / NUL / over-long / huge code points
     return rng.choice([b"\x00", b"\xff\xfe", b"\xc3", b"\xe2\x82", b"\xf0\x9f\x98", b"\xf4\x90\x80\x80", b"\xc0\xaf", b"\xed\xa0\x80",
                        b"a\x00b", b"http://\x00/", b"http://a\xff/", b"xn--\xff", b"xn--a-\xe9", b"http://ex%4", b"ex%4", b"h%f"]) + \
